@@ -67,6 +67,7 @@ def showLinearised (rd : Reader) (raw : UInt8) : String :=
   | .linearised _ .powFNeg1 => if v == 0 then " ~nl=inf" else s!" ~nl={showRat (R.rnd (1 / v))}"
   | .linearised _ .powF2 => s!" ~nl={showRat (R.rnd (v * v))}"
   | .linearised _ .powF3 => s!" ~nl={showRat (R.rnd (R.rnd (v * v) * v))}"
+  | .linearised _ .mathSqrt => if v < 0 then " ~nl=nan" else s!" ~nl={showRat (FloatModel.sqrt64 v)}"    -- IEEE-754: correctly rounded
   | _ => ""
 
 def showBuildErr : BuildErr → String
